@@ -106,11 +106,9 @@ func FromBech32(address string) (*Bech32, error) {
 	if oneIndex <= 1 {
 		return nil, errors.New("invalid Sewgit address")
 	}
-	hrp := address[:oneIndex+1]
-	// The HRP is everything before the found '1'.
-	prefix := hrp[:len(hrp)-1]
-	// Decode the bech32 encoded address.
-	_, data, err := bech32.Decode(address)
+	// Decode the bech32 encoded address; the prefix is the human-readable part
+	// as the decoder returns it (lower case, whatever the spelling was).
+	prefix, data, bech32Version, err := bech32.DecodeGeneric(address)
 	if err != nil {
 		return nil, err
 	}
@@ -125,6 +123,11 @@ func FromBech32(address string) (*Bech32, error) {
 	version := data[0]
 	if version > 16 {
 		return nil, errors.New("invalid witness version")
+	}
+
+	// Version 0 programs use the bech32 checksum, later versions bech32m.
+	if (version == 0) != (bech32Version == bech32.Version0) {
+		return nil, errors.New("checksum does not match the witness version")
 	}
 
 	// The remaining characters of the address returned are grouped into
@@ -231,12 +234,9 @@ func FromBlech32(address string) (*Blech32, error) {
 	if oneIndex <= 1 {
 		return nil, errors.New("invalid Sewgit address")
 	}
-	hrp := address[:oneIndex+1]
-	// The HRP is everything before the found '1'.
-	prefix := hrp[:len(hrp)-1]
-
-	// Decode the bech32 encoded address.
-	_, data, err := blech32.Decode(address)
+	// Decode the blech32 encoded address; the prefix is the human-readable
+	// part as the decoder returns it (lower case, whatever the spelling was).
+	prefix, data, err := blech32.Decode(address)
 	if err != nil {
 		return nil, err
 	}
